@@ -649,8 +649,8 @@ inductive Init where
   | default
   /-- `UnsizedInit<T> for T` (fixed types): the owned value itself. -/
   | owned (l : List Nat)
-  /-- `[T; N]` / `&[T; N]` for `List` (and `[u8; N]` for `RemainingBytes`, `UnsizedString`'s
-  `UnsizedStringInit { chars: [u8; N] }`): the element records. -/
+  /-- `[T; N]` / `&[T; N]` for `List` (and `[u8; N]` for `RemainingBytes`): the element records.
+  (`UnsizedStringInit { chars }` has a private field, so a string only has `DefaultInit`.) -/
   | array (es : List (List Nat))
   /-- `[I; N]` for `UnsizedList<T>` where `T: UnsizedInit<I>`. -/
   | uarray (is : List Init)
@@ -663,35 +663,35 @@ inductive Init where
 /-- The all-zero (`Zeroable::zeroed`) value of a fixed shape. -/
 def zeros (n : Nat) : List Nat := List.replicate n 0
 
+/-- Initializers of a fixed type: `DefaultInit` or the owned value. -/
+def initOkFixed (f : Fixed) : Init → Bool
+  | .default => true
+  | .owned l => l.length == f.size && f.valid l && decide (BytesWF l)
+  | _ => false
+
 mutual
 /-- Is `a` an initializer argument some `UnsizedInit<_>` impl of the shape accepts? -/
 def initOk : Shape → Init → Bool
-  | .fixed _, .default => true
-  | .fixed f, .owned l => l.length == f.size && f.valid l && decide (BytesWF l)
+  | .fixed f, a => initOkFixed f a
   | .list _ _, .default => true
   | .list e _, .array es =>
       es.all (fun x => x.length == e.size && e.valid x && decide (BytesWF x))
   | .set _ _, .default => true
   | .map _ _ _, .default => true
   | .str _, .default => true
-  | .str _, .array es => es.all (fun x => x.length == 1 && decide (BytesWF x))
   | .rem, .default => true
   | .rem, .array es => es.all (fun x => x.length == 1 && decide (BytesWF x))
   | .ulist _, .default => true
-  | .ulist e, .uarray is => is.all (initOk e) && sameInitSize e is
+  | .ulist e, .uarray is => is.all (initOk e)
   | .umap _ _, .default => true
   | .struct _ fs, .default => initOkDefault fs
   | .struct sized fs, .fields sz is =>
-      (if sized.isEmpty then true else initOk (.fixed (.record sized)) sz) && initOkFields fs is
+      (if sized.isEmpty then true else initOkFixed (.record sized) sz) && initOkFields fs is
   | .enum _ ps, .default => (match ps with | p :: _ => initOk p .default | [] => false)
   | .enum _ ps, .variant i a => initOkVariant ps i a
   | .unit, .default => true
   | .disc _ inner, a => initOk inner a
   | _, _ => false
-/-- `[I; N]`: all elements have the same Rust type `I`, hence the same `INIT_BYTES`; we only need
-(and only check) that they are all accepted. -/
-def sameInitSize : Shape → List Init → Bool
-  | _, _ => true
 def initOkDefault : List Shape → Bool
   | [] => true
   | f :: fs => initOk f .default && initOkDefault fs
@@ -705,19 +705,22 @@ def initOkVariant : List Shape → Nat → Init → Bool
   | [], _, _ => false
 end
 
+/-- `init` of a fixed type: zeroes for `DefaultInit`, the owned bytes otherwise. -/
+def initFixedBytes (f : Fixed) : Init → List Nat
+  | .owned l => l
+  | _ => zeros f.size
+
 mutual
 /-- The bytes `UnsizedInit::init` writes (`checked.rs` 137–174, `list.rs` 581–644,
 `remaining_bytes.rs` 163–194, `unsized_list.rs` 1009–1177, generated default/struct/enum inits,
 `account.rs` 238–258). Its length is `INIT_BYTES` (`initSize`, theorem `init_size`). -/
 def initBytes : Shape → Init → List Nat
-  | .fixed f, .default => zeros f.size
-  | .fixed _, .owned l => l
+  | .fixed f, a => initFixedBytes f a
   | .list _ lw, .default => zeros lw
   | .list _ lw, .array es => leN lw es.length ++ es.flatten
   | .set _ lw, .default => zeros lw
   | .map _ _ lw, .default => zeros lw
   | .str lw, .default => zeros lw
-  | .str lw, .array es => leN lw es.length ++ es.flatten
   | .rem, .default => []
   | .rem, .array es => es.flatten
   | .ulist _, .default => zeros 12
@@ -728,8 +731,7 @@ def initBytes : Shape → Init → List Nat
         ++ leN 4 is.length ++ encs.flatten
   | .umap _ _, .default => zeros 12
   | .struct sized fs, .default => zeros (Fixed.sizeList sized) ++ initDefaultFields fs
-  | .struct _ fs, .fields sz is =>
-      (match sz with | .owned l => l | _ => []) ++ initFields fs is
+  | .struct sized fs, .fields sz is => initFixedBytes (.record sized) sz ++ initFields fs is
   | .enum ds ps, .default =>
       (match ds, ps with | d :: _, p :: _ => d :: initBytes p .default | _, _ => [])
   | .enum ds ps, .variant i a => initVariant ds ps i a
@@ -751,14 +753,12 @@ end
 mutual
 /-- `UnsizedInit::<A>::INIT_BYTES`. -/
 def initSize : Shape → Init → Nat
-  | .fixed f, .default => f.size
-  | .fixed f, .owned _ => f.size
+  | .fixed f, _ => f.size
   | .list _ lw, .default => lw
   | .list e lw, .array es => lw + e.size * es.length
   | .set _ lw, .default => lw
   | .map _ _ lw, .default => lw
   | .str lw, .default => lw
-  | .str lw, .array es => lw + 1 * es.length
   | .rem, .default => 0
   | .rem, .array es => es.length
   | .ulist _, .default => 12
@@ -786,22 +786,20 @@ end
 mutual
 /-- The owned value an initializer denotes. -/
 def denote : Shape → Init → Val
-  | .fixed f, .default => .bytes (zeros f.size)
-  | .fixed _, .owned l => .bytes l
+  | .fixed f, a => .bytes (initFixedBytes f a)
   | .list _ _, .default => .seq []
   | .list _ _, .array es => .seq es
   | .set _ _, .default => .seq []
   | .map _ _ _, .default => .seq []
   | .str _, .default => .bytes []
-  | .str _, .array es => .bytes es.flatten
   | .rem, .default => .bytes []
   | .rem, .array es => .bytes es.flatten
   | .ulist _, .default => .useq []
   | .ulist e, .uarray is => .useq (is.map (denote e))
   | .umap _ _, .default => .umap []
   | .struct sized fs, .default => .record (zeros (Fixed.sizeList sized)) (denoteDefault fs)
-  | .struct _ fs, .fields sz is =>
-      .record (match sz with | .owned l => l | _ => []) (denoteFields fs is)
+  | .struct sized fs, .fields sz is =>
+      .record (initFixedBytes (.record sized) sz) (denoteFields fs is)
   | .enum _ ps, .default => (match ps with | p :: _ => .variant 0 (denote p .default) | [] => .unit)
   | .enum _ ps, .variant i a => .variant i (denoteVariant ps i a)
   | .unit, _ => .unit
